@@ -355,6 +355,10 @@ func StopExplore()            {}
 // through library code) by functions of packages whose import path ends with a given suffix.
 func ExploreOnly(pkgSuffixes ...string) {}
 func PermuteMaps(maxSize int)           {}
+
+// RotateMaps(1): ranging over a map with more entries than the PermuteMaps bound explores
+// every rotation of its insertion order (n paths); no effect natively.
+func RotateMaps(on int) {}
 func LiveThreads() int                  { return 0 }
 func Yield()                            {}
 func WaitIdle()                         {}
